@@ -11,6 +11,8 @@ structure WF (s : St) : Prop where
   below : ∀ lab ∈ s.labels, lab.height ≤ s.stack.length
   fresh : ∀ lab ∈ s.labels, lab.index < s.next
   nonempty : s.labels ≠ []
+  /-- every operand on the type stack has a declared slot index (`stackDeclarations->length`) -/
+  decl : s.stack.length ≤ s.declLen
 
 def LocTyped (ctx : Ctx) (loc : List Val) : Prop :=
   loc.length = ctx.localTypes.length ∧ ∀ k (h : k < loc.length) (h' : k < ctx.localTypes.length), vtOf loc[k] = ctx.localTypes[k]
@@ -37,9 +39,11 @@ def SimRes (ctx : Ctx) (st : St) (stk : List Val) (σ : MSt) (stOut : St) (dead 
     dead = false ∧ WF stOut ∧ stOut.labels = st.labels ∧ st.next ≤ stOut.next ∧ LocTyped ctx loc' ∧
     ∃ σ', m = .normal σ' ∧ Rel stOut.stack stk' σ' ∧ σ'.locals = loc' ∧ SlotsBelow st.base σ σ' ∧ stk'.take st.base = stk.take st.base
   | .branch l stkB locB =>
-    LocTyped ctx locB ∧ ∃ lab σ', st.label l = some lab ∧ m = .jump lab.index σ' ∧ JumpOK lab st.base stk stkB locB σ σ'
+    LocTyped ctx locB ∧ ∃ lab σ', st.label l = some lab ∧ m = .jump lab.index σ' ∧ JumpOK lab st.base stk stkB locB σ σ' ∧
+      (lab.type.isSome → 1 ≤ stOut.declLen)
   | .ret stkB locB =>
-    LocTyped ctx locB ∧ ∃ lab σ', st.labels[0]? = some lab ∧ m = .jump lab.index σ' ∧ JumpOK lab st.base stk stkB locB σ σ'
+    LocTyped ctx locB ∧ ∃ lab σ', st.labels[0]? = some lab ∧ m = .jump lab.index σ' ∧ JumpOK lab st.base stk stkB locB σ σ' ∧
+      (lab.type.isSome → 1 ≤ stOut.declLen)
 
 def execOut (ns : NumSem) (f : Nat) (out : List MStmtC) (σ : MSt) : MRes :=
   match out with
